@@ -5,7 +5,7 @@ V = os.path.dirname(os.path.dirname(os.path.abspath(__file__)))
 props = [json.loads(l) for l in open(os.path.join(V, "properties.jsonl"))]
 COMMON_NOTE = ("Trusted: Coq 8.16.1 kernel (vm_compute for computed witnesses, no native_compute); the development declares no axiom and "
                "Print Assumptions reports every theorem closed under the global context; the hand-written Gallina model is tied to the code "
-               "only by the correspondence run (differential, generator-bounded) of this check; extraction (ExtrOcamlBasic, ExtrOcamlString), "
+               "only by the correspondence run (differential, generator-bounded) of this check; extraction (ExtrOcamlBasic, ExtrOcamlString, and Extract Inlined Constant List.rev => OCaml List.rev), "
                "OCaml driver, Go overlay driver, Python generators. ")
 CLAIMED = {
     "C05": ("Theorems (all histories, no bound): C05_judged (model outputs satisfy the independent executable judge), C05_member, C05_window (any k consecutive "
